@@ -17,7 +17,7 @@
       text satisfies) — `render_parse`;
     * in collect-all mode the messages and `ErrorInfo.field`s are exactly the supplied fields that
       `validate` rejects, with NO condition on the texts (`collect_all_exact`).
-  What remains false (since /repo <FIXID3> identifiers of every script keep their field): a class
+  What remains false (since /repo 18c6055 identifiers of every script keep their field): a class
   name that is not an identifier — `type('My Class', …)` — still loses it
   (`non_word_name_loses_field`, `non_identifier_class_name_loses_field`, `statement_false`).
 -/
@@ -181,7 +181,7 @@ theorem non_word_name_loses_field (W : Word) (f rest : Text) (h : identOk W f = 
   rw [field_chars_necessary W _ f hf] at h
   exact absurd h (by simp)
 
-/-- the identifier part of that finding is fixed by /repo <FIXID3>: valid identifiers with combining
+/-- the identifier part of that finding is fixed by /repo 18c6055: valid identifiers with combining
     marks / vowel signs — `x` + U+0301, Hindi `नाम` (U+093E is a vowel sign), Thai `ชื่อ` — keep their
     field under today's field group, and were lost under `[\w.]+` (where such characters are not
     alphanumeric: `asciiWord` answers as `str.isalnum` does for them) -/
